@@ -5,7 +5,8 @@ LEVEL = "other"
 CONTRACT_MODULES = ["contracts.refs", "contracts.refs_ctor", "contracts.refs_paths"]
 FUNCTIONS = [c.qualname for c in _c.CINITS] + ["BaseRef.__hash__", "BaseRef.__getitem__", "MutableRef.__setitem__", "BaseRef.__eq__"]
 # equality is equality of the printed form: the printing rules of the path-building classes are part of the property (C11's contracts)
-BORROW = [("C11", ["Ref.__repr__", "AttrRef.__repr__", "ItemRef.__repr__", "BinOpExpr.__repr__", "UnaryOpExpr.__repr__", "LiteralExpr.__repr__"]),
+BORROW = [("C11", ["Ref.__repr__", "AttrRef.__repr__", "ItemRef.__repr__", "BinOpExpr.__repr__", "UnaryOpExpr.__repr__", "LiteralExpr.__repr__",
+                   "BuiltinRef.__repr__", "CallRef.__repr__"]),
           # a reference rebuilt through its pickle hook (deepcopy, pickle, Manager.copy) must be the same kind of reference over the same slots:
           # __reduce__ returns type(self) and the constructor slots, and no concrete reference class defines a hook of its own (proved under C12)
           ("C12", ["MutableRef.__reduce__", "BinOpExpr.__reduce__", "UnaryOpExpr.__reduce__", "LiteralExpr.__reduce__", "BuiltinRef.__reduce__", "CallRef.__reduce__",
